@@ -106,6 +106,7 @@ func execParsers(prop string) func(ctx *Ctx, in *Input) *Result {
 				}
 				var firstOK *engbrt.ParseResult
 				var firstName string
+				unassigned := false
 				for _, vn := range vnames {
 					u := sc.Units[vn]
 					if u.GenErr != "" || u.CompErr != "" {
@@ -139,6 +140,14 @@ func execParsers(prop string) func(ctx *Ctx, in *Input) *Result {
 								got := valueOf(pr.Value, u, sc.Spec)
 								if sc.Spec.NTs[sc.Spec.Start].Tag == "" {
 									continue
+								}
+								if sc.G.UsedUnassigned {
+									res.Count("probe_unassigned_value_used", 1)
+									if u.Variant.Lang == "ts" {
+										// Go starts $$ at the zero value, TypeScript at undefined; the statement does not pin an unassigned $$
+										res.Count("excluded_unassigned_value_in_typescript", 1)
+										continue
+									}
 								}
 								if !reflect.DeepEqual(got, val) {
 									return fail("wrong-value", "wrong-value", "%s: returned value %v, evaluating the actions bottom-up over the parse tree gives %v", where, got, val)
@@ -185,7 +194,19 @@ func execParsers(prop string) func(ctx *Ctx, in *Input) *Result {
 						}
 						if firstOK == nil {
 							firstOK, firstName = pr, vn
+							unassigned = false
+							if pr.Outcome == "accept" {
+								sc.G.Derivation(f.Toks, toRecs(pr.Recs), pr.Fetched)
+								unassigned = sc.G.UsedUnassigned
+							}
 							continue
+						}
+						if unassigned && u.Variant.Lang == "ts" && pr.Outcome == "accept" && firstOK.Outcome == "accept" {
+							// compare everything but the value (an unassigned $$ is 0 in Go and undefined in TypeScript)
+							cp := *pr
+							cp.Value = firstOK.Value
+							pr = &cp
+							res.Count("excluded_unassigned_value_in_typescript", 1)
 						}
 						if d := diffParse(firstOK, pr, sc, u); d != "" {
 							class := "variants-disagree"
